@@ -964,3 +964,52 @@ var optIntrinsics = map[string]intrFn{
 		return d, nil, true
 	},
 }
+
+// timeMsModel (spec: models ["time-as-milliseconds"]): package time for code that only handles
+// wall-clock instants with millisecond resolution.  A time.Time made by time.UnixMilli is
+// represented by its millisecond count (field ext; wall = 0, loc = nil); UTC, Before, After,
+// Equal, Compare, UnixMilli, Sub and Add (of whole milliseconds) are computed on that count,
+// which is what the real methods return for such values as long as no result saturates
+// (instants within +-146 years of each other).  Any other method of time.Time on such a value
+// would be wrong: the harness that opts in must not reach one (the evidence lists the
+// functions encoded).
+var timeMsModel = map[string]intrFn{}
+
+func init() {
+	ext := func(v Value) *term.Term { return v.(*Agg).Elems[1].(*term.Term) }
+	timeMsModel["time.UnixMilli"] = func(in *Interp, s *State, c *callCtx) (Value, []*State, bool) {
+		z := in.zero(c.fn.Signature.Results().At(0).Type()).(*Agg)
+		n := &Agg{Elems: append([]Value(nil), z.Elems...)}
+		n.Elems[1] = c.args[0].(*term.Term)
+		return n, nil, true
+	}
+	timeMsModel["(time.Time).UTC"] = func(in *Interp, s *State, c *callCtx) (Value, []*State, bool) {
+		return c.args[0], nil, true
+	}
+	timeMsModel["(time.Time).UnixMilli"] = func(in *Interp, s *State, c *callCtx) (Value, []*State, bool) {
+		return ext(c.args[0]), nil, true
+	}
+	timeMsModel["(time.Time).Before"] = func(in *Interp, s *State, c *callCtx) (Value, []*State, bool) {
+		return in.ts.Slt(ext(c.args[0]), ext(c.args[1])), nil, true
+	}
+	timeMsModel["(time.Time).After"] = func(in *Interp, s *State, c *callCtx) (Value, []*State, bool) {
+		return in.ts.Slt(ext(c.args[1]), ext(c.args[0])), nil, true
+	}
+	timeMsModel["(time.Time).Equal"] = func(in *Interp, s *State, c *callCtx) (Value, []*State, bool) {
+		return in.ts.Eq(ext(c.args[0]), ext(c.args[1])), nil, true
+	}
+	timeMsModel["(time.Time).Sub"] = func(in *Interp, s *State, c *callCtx) (Value, []*State, bool) {
+		d := in.ts.Sub(ext(c.args[0]), ext(c.args[1]))
+		return in.ts.Mul(d, in.ts.Const(64, 1000000)), nil, true
+	}
+	timeMsModel["(time.Time).Add"] = func(in *Interp, s *State, c *callCtx) (Value, []*State, bool) {
+		d := c.args[1].(*term.Term)
+		if !d.IsConst() || int64(d.Val)%1000000 != 0 {
+			in.unsup("time-as-milliseconds: Add of a duration that is not a constant number of milliseconds")
+		}
+		t := c.args[0].(*Agg)
+		n := &Agg{Elems: append([]Value(nil), t.Elems...)}
+		n.Elems[1] = in.ts.Add(ext(t), in.ts.Const(64, uint64(int64(d.Val)/1000000)))
+		return n, nil, true
+	}
+}
